@@ -39,6 +39,8 @@ type History struct {
 	ExpectRejected bool `json:"expect_rejected,omitempty"`
 	// ExpectClean: Process of what was accepted returns no error (a rejected text leaves no trace)
 	ExpectClean bool `json:"expect_clean,omitempty"`
+	// NoModel: the Lean driver is not asked (the compiled model is exponential on this input)
+	NoModel bool `json:"no_model,omitempty"`
 	// resource limits of this history in the child (0 = the defaults, see limits)
 	CPUSeconds float64 `json:"cpu_s,omitempty"`
 	MemMiB     int     `json:"mem_mib,omitempty"`
